@@ -219,7 +219,7 @@ func (d *Dialer) config(addr string) (cfg *websocket.Config, err error) {
 	cfg.TlsConfig = d.TLSConfig
 	if cfg.TlsConfig == nil {
 		cfg.TlsConfig = &tls.Config{
-			ServerName: cfg.Location.Host,
+			ServerName: cfg.Location.Hostname(),
 			MinVersion: tls.VersionTLS12,
 		}
 	}
